@@ -9,7 +9,8 @@
 (*        admissible == (loose canon) with > 1 member: source of triples   *)
 (*   <<"SHAPE", kind, id, shape>>        the cell structure of the object  *)
 (*        as the copy requirement sees it: per child group the number of   *)
-(*        bag entries (and whether one has the value None) or the shape of *)
+(*        bag entries (and whether one has the value None, whether one is  *)
+(*        stored under the unnamed key None) or the shape of               *)
 (*        the value slot (absent / none / scalar / EMPTY array / array /   *)
 (*        object / array of objects); the harness copies and mutates at    *)
 (*        least one object of every (kind, shape) class                    *)
@@ -40,6 +41,8 @@ SlotShape(g) ==
 BagShape(g) ==
   ToString(Len(g)) \o (IF \E i \in 1..Len(g) : IsNone(g[i].n)
                         THEN "+none" ELSE "")
+                  \o (IF \E i \in 1..Len(g) : g[i].key = NoName
+                        THEN "+unnamed" ELSE "")
 CopyShape(n) ==
   [g \in 1..Len(n.ch) |->
      IF IsBag(n.k, g) THEN BagShape(n.ch[g]) ELSE SlotShape(n.ch[g])]
